@@ -73,3 +73,11 @@ def run(ctx):
                     ctx.ok(RA, 'built:%s#%s' % (g.path, t.get('span')), None, g, t.get('span'))
         if n_b == 0:
             ctx.undecided(RA, 'built', 'no builder construction found in the commands')
+        # a command that can send its FST to stdout (`-`) must not print anything else there: a progress or summary line lands inside or
+        # behind the image
+        RB = ctx.rule('R09.11', 'commands that write an FST print nothing to stdout themselves', floor=1)
+        writers = [g for g in b.fn_list if g.path.startswith(('cmd::set::', 'cmd::map::', 'cmd::union::', 'merge::', '<merge::')) and not g.from_expansion]
+        bad_p = [(g, t) for g in writers for _, t in g.calls() if (g.callee(t) or '') in ('std::io::_print', 'std::io::stdio::_print') or (g.callee(t) or '').endswith('io::_print')]
+        for g, t in bad_p:
+            ctx.violation(RB, 'stdout-print:' + g.path, '%s prints to stdout although its FST may be written there (output `-`): the text ends up inside the file image' % g.path, fn=g, at=t.get('span'))
+        ctx.check(RB, not bad_p and bool(writers), 'no-stdout-print', 'stdout prints in FST-writing commands')
